@@ -25,6 +25,7 @@ func main() {
 	seed := flag.Int("seed", 0, "seed (orders sensitivity variants only)")
 	verif := flag.String("verif", "/verif", "verif directory (evidence, known findings)")
 	out := flag.String("out", "", "directory receiving evidence/ (default: the verif directory)")
+	overlay := flag.String("overlay", "", "unified diff applied to the source as an overlay (sensitivity suite)")
 	list := flag.Bool("list", false, "list properties with a check")
 	flag.Parse()
 	if *list {
@@ -44,7 +45,17 @@ func main() {
 		os.Exit(2)
 	}
 	start := time.Now()
-	c, err := Load(*repo, LoadOpts{})
+	extraVerifDir = *verif
+	opts := LoadOpts{}
+	if *overlay != "" {
+		ov, err := overlayFromDiff(*repo, *overlay)
+		if err != nil {
+			fmt.Println(err)
+			os.Exit(3)
+		}
+		opts.Overlay = ov
+	}
+	c, err := Load(*repo, opts)
 	if err != nil {
 		// the tree does not load / type-check: no verdict can be given; this is a failure of the check run
 		fmt.Printf("cannot analyse %s: %v\n", *repo, err)
@@ -61,7 +72,7 @@ func main() {
 		f(c, r, *tier)
 	}()
 	extra := map[string]interface{}{}
-	if *tier == "thorough" {
+	if *tier == "thorough" && *overlay == "" {
 		runThoroughExtras(c, r, *prop, *repo, extra)
 	}
 	if *out == "" {
